@@ -68,6 +68,8 @@ def parseCause (s : String) : Option Cause :=
 def shapeBs (shape : String) : Option BodySize :=
   match shape with
   | "cl" => some .length
+  | "cl103" => some .length  -- an interim 103 first: the model starts at the final response
+  | "cl103p" => some .length
   | "chunked" => some .chunked
   | "uc" => some .empty
   | _ => none
@@ -215,6 +217,11 @@ def admit (ft bt : Nat) (tls piped : Bool) (r : Req) (sit : Situation) : Option 
           (t, (s.1, if s.2 == .idle then .stalled else s.2)))
       else if r.shape == "garbage" then
         some [one (p ++ [.backParseError])]
+      else if r.shape == "cl103" then
+        -- WHAT THE CODE DOES (finding `final-response-coalesced-with-1xx-lost`): an interim 103
+        -- that arrives in the same read as the final response is forwarded and the response
+        -- buffer cleared, final response included; nothing more comes: a timer answers 504
+        some ((stallAlts ft bt p).map (one ·))
       else if r.client == "noread" then
         -- the client reads nothing: part of the body is written into the socket buffers, the
         -- rest stays pending until a timer fires
